@@ -27,7 +27,7 @@ TEMPLATES = {
     "r,r": ("{r1}, {r2}", [], ["r1", "r2"]),
     "o,r,*,r": ("o, {r1}, *, {r2}", ["o"], ["r1", "r2"]),
 }
-REJECTS = ("posonly", "noannotation", "uncalled")
+REJECTS = ("posonly", "noannotation", "uncalled", "posonly-mixed", "noannotation-mixed", "uncalled-mixed", "uncalled-mixed-first")
 
 
 def gen_source(template: str, ann1: str, ann2: str, name1: str, name2: str, is_async: bool, local: bool) -> str:
@@ -75,6 +75,14 @@ def reject_source(kind: str, is_async: bool) -> str:
         sig = "r: TA = resource(), /"
     elif kind == "noannotation":
         sig = "r = resource()"
+    elif kind == "posonly-mixed":
+        sig = "r: TA = resource(), /, ok: TA = resource('x')"
+    elif kind == "noannotation-mixed":
+        sig = "ok: TA = resource('x'), r = resource()"
+    elif kind == "uncalled-mixed":
+        sig = "ok: TA = resource('x'), r: TA = resource"
+    elif kind == "uncalled-mixed-first":
+        sig = "r: TA = resource, *, ok: TA = resource()"
     else:
         sig = "r: TA = resource"
     return f"from asphalt.core import inject, resource\nTA = _TA\n@inject\n{d} f({sig}):\n    return 1\n"
